@@ -99,6 +99,11 @@ def payload(ctx, v, idx=0):
 
 def call_closure(ctx, f, args):
     """Call a closure / fn item value with positional args (closure env first in MIR)."""
+    for _ in range(3):          # `&F` / `&&F`: callable through a reference
+        if isinstance(f, Ref):
+            f = load(ctx, f)
+        else:
+            break
     if isinstance(f, FnItem):
         return ctx.call(f.name, args, "?")
     if isinstance(f, Agg) and f.ty.startswith("{closure@"):
@@ -115,6 +120,35 @@ def call_closure(ctx, f, args):
             pass
         return ctx.run_fn(fn, [env] + list(args))
     raise Unsupported("call of %r" % (f,))
+
+
+# ---- calling a closure / fn item through the Fn traits -----------------------------------------
+@summary(r"^<.* as Fn(Mut|Once)?<\(.*\)>>::call(_mut|_once)?$")
+def _fn_call_trait(ctx, a, ty, c):
+    f = a[0]
+    packed = a[1] if len(a) > 1 else None
+    args = []
+    if isinstance(packed, Agg):
+        args = [packed.fields[i] for i in sorted(packed.fields)]
+    elif packed is not None and packed is not UNIT:
+        raise Unsupported("Fn::call with unpacked arguments %r" % (packed,))
+    return call_closure(ctx, f, args)
+
+
+@summary(r"^Arc::<.*>::ptr_eq$|^Rc::<.*>::ptr_eq$")
+def _ptr_eq(ctx, a, ty, c):
+    # two handles may or may not share an allocation: both outcomes are explored (same allocation => same value)
+    x, y = a[0], a[1]
+    lx = load(ctx, x) if isinstance(x, Ref) else x
+    ly = load(ctx, y) if isinstance(y, Ref) else y
+    if lx is ly:
+        return Bool(True)
+    return Bool(ctx.choose(2) == 0)
+
+
+@summary(r"^(std::ops::|core::ops::)?RangeInclusive::<(u\d+|usize)>::new$")
+def _range_inclusive_new(ctx, a, ty, c):
+    return Agg(ty, {0: a[0], 1: a[1], 2: Bool(False)})
 
 
 # ---- integers -------------------------------------------------------------------------------
